@@ -75,6 +75,11 @@ func VerifProgStore() {
 var verifAllocOps = []int{opAlloc, opAllocRaw, opAllocN, opFree, opFreeNew, opOverwrite, opFlush, opCheckpoint}
 
 func verifCfgVariant(cfg *progCfg) {
+	if verifParam("opset", 0) == 2 {
+		// churn inside one transaction: a block of fresh pages, then single allocations and frees of fresh pages
+		cfg.firstOps = []int{opAllocRawN}
+		cfg.ops = []int{opAllocRaw, opFreeNew}
+	}
 	if verifParam("opset", 0) == 1 {
 		// allocation / free only (longer transactions stay affordable)
 		cfg.ops = []int{opAllocRaw, opAllocRawN, opFreeNew, opFree}
